@@ -72,7 +72,8 @@ inline std::string describe_seq(const SeqProg &p) {
     hz::Desc d; d << pn[p.policy]; if (p.policy == P_EXTRA) d << xn[p.ops.empty() ? 0 : p.ops[0].a / 3 % X_COUNT]; d << ", " << (unsigned)p.ops.size() << " ops:";
     for (auto &o : p.ops) {
         if (o.code == 2) { d << " complete(#" << (unsigned)o.a << ")"; continue; }
-        if (p.policy != P_STACK && o.code == 3 && (o.a & 4)) d << ((o.a & 16) ? " [movable policy with no live frame: another storage is move-constructed from it and destroyed, the moved-from object stays in use; otherwise:]" : " [movable policy with no live frame: move the storage object away and back; otherwise:]");
+        if (p.policy == P_EXTRA && o.code == 3 && (o.a & 0x40)) { d << " create(size class " << (unsigned)(o.a % NSC) << ") whose attached-object factory throws"; continue; }
+        if (p.policy != P_STACK && p.policy != P_EXTRA && o.code == 3 && (o.a & 4)) d << ((o.a & 16) ? " [movable policy with no live frame: another storage is move-constructed from it and destroyed, the moved-from object stays in use; otherwise:]" : " [movable policy with no live frame: move the storage object away and back; otherwise:]");
         d << " create(size class " << (unsigned)(o.a % NSC) << ")";
         if (p.policy == P_STACK && (o.a & 8)) d << "+create(size class " << (unsigned)((o.a >> 4) % NSC) << " in the same storage object)";
     }
@@ -91,7 +92,8 @@ struct alignas(AL) ExtraT {
 using Extra = ExtraT<4>;
 using Extra16 = ExtraT<16>;          // alignment of long double / SSE vectors: not more than operator new guarantees
 
-struct SeqStats { unsigned creates = 0, reuse_hits = 0, fallbacks = 0, max_live = 0; };
+struct FactoryFailed { int tag; };
+struct SeqStats { unsigned creates = 0, reuse_hits = 0, fallbacks = 0, max_live = 0, factory_throws = 0; };
 
 struct SeqRun {
     std::vector<std::unique_ptr<Frame>> frames;
@@ -197,6 +199,20 @@ struct SeqRun {
             if (o.code == 2) { if (!frames.empty()) { Frame &f = *frames[o.a % frames.size()]; bool was = f.live; long alive = hz::slot_get(36); complete(f); if (was) HZ_CHECK(hz::slot_get(36) == alive - 1, "the attached extra object was not destroyed together with its frame"); } continue; }
             int sc = o.a % NSC; int tag = 500 + next_id;
             long built = hz::slot_get(35);
+            if (o.code == 3 && (o.a & 0x40)) {
+                // the factory of the attached object throws: the exception reaches the caller, no coroutine exists, no attached
+                // object was constructed or destroyed, and the memory obtained for the frame went back where it came from
+                stor.emplace_back(new XS([tag]() -> E { throw FactoryFailed{tag}; }));
+                cocls::future<void> gate; long alive = hz::slot_get(36); long bal = hz::alloc_balance(); int got = 0;
+                try { cocls::future<int> r = create(*stor.back(), sc, &gate, next_id++); (void)r; }
+                catch (const FactoryFailed &e) { got = e.tag; }
+                HZ_CHECK(got == tag, "the exception thrown by the factory of the attached object did not reach the caller of the coroutine");
+                HZ_CHECK(hz::slot_get(35) == built && hz::slot_get(36) == alive, "factory of the attached object threw: %ld attached objects constructed, live count changed by %ld (nothing was constructed, nothing may be destroyed)", hz::slot_get(35) - built, hz::slot_get(36) - alive);
+                if constexpr (std::is_same_v<Base, cocls::default_storage>)
+                    HZ_CHECK(hz::alloc_balance() == bal, "factory of the attached object threw: %ld heap blocks obtained for the frame that was never created were not released", hz::alloc_balance() - bal);
+                st.factory_throws++;
+                continue;
+            }
             stor.emplace_back(new XS([tag] { return E(tag); }));
             Frame &f = new_frame(sc);
             f.result.reset(new cocls::future<int>(create(*stor.back(), sc, f.gate.f.get(), next_id++)));
@@ -261,7 +277,7 @@ inline void run_seq(const SeqProg &p) {
     { SeqRun R; R.run(p); st = R.st; }
     hz::set_class(p.policy);
     hz::set_nontrivial(st.creates >= 2);
-    hz::count(0, st.creates); hz::count(1, st.reuse_hits); hz::count(2, st.fallbacks);
+    hz::count(0, st.creates); hz::count(1, st.reuse_hits); hz::count(2, st.fallbacks); hz::count(3, st.factory_throws);
 }
 
 // ---------------------------------------------------------------- (b) two threads, one mt-safe storage
@@ -295,6 +311,6 @@ inline void run_mt(const MtProg &p) {
 inline void run(hz::Reader &r) { unsigned sel = r.mod(4); if (sel < 3) run_seq(decode_seq(r)); else run_mt(decode_mt(r)); }
 inline std::string describe(hz::Reader &r) { unsigned sel = r.mod(4); if (sel < 3) return describe_seq(decode_seq(r)); return describe_mt(decode_mt(r)); }
 static const char *const class_names[] = {"default", "reusable", "reusable_mtsafe", "stack", "placement", "reusable_buffer", "extra_storage", "mtsafe:two-threads"};
-static const char *const counter_names[] = {"frames_created", "reuse_hits_without_allocation", "heap_fallbacks"};
+static const char *const counter_names[] = {"frames_created", "reuse_hits_without_allocation", "heap_fallbacks", "attached_object_factories_that_threw"};
 
 } // namespace scen_storage
